@@ -38,7 +38,7 @@ RULE = ("each run draws a body length (dense around 0, 1, 2^14+-2, 2^15, 2^16+-2
         "sizes and ciphertext cuts, and serves it over BOTH TLS backends. distinct = distinct "
         "(length, reader, buffer, cut-signature); non-trivial = body >= 1 byte and the reader or "
         "the network was not the default")
-PROBES = ["client_speaks_tls12", "file_of_exactly_max_file_size", "client_resumes_tls_session", "tls_session_actually_resumed", "request_in_two_records_with_the_handshake", "stray_bytes_while_handler_pending", "handler_finishes_after_request_timeout", "file_with_byte_order_mark", "status_21_to_29", "backpressure_pause_writing", "body_ge_16k", "body_ge_64k", "body_ge_6MiB", "half_closing_reader", "nauyaca_client_as_reader", "slow_reader", "bursty_reader",
+PROBES = ["file_not_valid_utf8", "client_speaks_tls12", "file_of_exactly_max_file_size", "client_resumes_tls_session", "tls_session_actually_resumed", "request_in_two_records_with_the_handshake", "stray_bytes_while_handler_pending", "handler_finishes_after_request_timeout", "file_with_byte_order_mark", "status_21_to_29", "backpressure_pause_writing", "body_ge_16k", "body_ge_64k", "body_ge_6MiB", "half_closing_reader", "nauyaca_client_as_reader", "slow_reader", "bursty_reader",
           "ciphertext_cut", "static_file", "start_server", "very_slow_reader_over_30s"]
 COMPONENTS = {
     "real": ["nauyaca.server.protocol._send_response", "nauyaca.server.tls_protocol (TLS pump)",
@@ -270,6 +270,7 @@ def run_one(ch):
         n = ch.pick("hugelen", [6 << 20, (6 << 20) + 12345, 8 << 20, 12 << 20, 16 << 20])
         res.stats["body_ge_6MiB"] += 1
     source = ch.pick("source", ["handler", "static", "start_server"], [6, 2, 2])
+    damaged_file = False
     body = make_body(ch, n)
     if source != "handler":
         # static files are read as UTF-8 text: use LF-only text content
@@ -283,6 +284,14 @@ def run_one(ch):
             res.stats["file_with_byte_order_mark"] += 1
         body = (s, s.encode(), "text/gemini" if source == "static" else "text/plain")
         n = len(body[1])
+        if source == "static" and n >= 4 and ch.chance("badutf8", 0.08):
+            # a file that is not valid UTF-8 (one damaged byte, Latin-1 text): an error answer is
+            # fine, a 2x answer whose bytes are not the file's is not
+            b = bytearray(body[1])
+            b[ch.choose("badutf8.at", len(b))] = 0xFF
+            body = (s, bytes(b), body[2])
+            damaged_file = True
+            res.stats["file_not_valid_utf8"] += 1
     reader = ch.pick("reader", ["eager", "slow", "bursty", "client"], [5, 3, 2, 1])
     if reader == "client" and n > (2 << 20):
         reader = "eager"
@@ -377,7 +386,9 @@ def run_one(ch):
             res.violate(f"C06/no-response/{backend}", "handler was never invoked", **ctx)
             continue
         exp = sw.expected_wire(resp)
-        if source == "static" and (exp.split(b"\r\n", 1)[-1] != body[1] or exp[:3] != b"20 ") and body[1]:
+        if damaged_file and exp[:1] != b"2":
+            pass        # refused with an error: nothing of the file is misrepresented
+        elif source == "static" and (exp.split(b"\r\n", 1)[-1] != body[1] or exp[:3] != b"20 ") and body[1]:
             # the file server is the handler here: what it hands over must be the file
             res.violate(f"C06/altered/static-file-differs-from-disk/{backend}",
                         f"StaticFileHandler produced {len(exp.split(b'\r\n', 1)[-1])} body bytes for a "
